@@ -305,3 +305,216 @@ def plaintext_probe(port: int, chunks: list[bytes], wait: float = 0.6) -> dict:
         return {"got": got, "end": end}
     finally:
         s.close()
+
+
+# -- several clients at the same time against one server (C06) -------------------------------------
+def fetch_overlapping(port: int, specs: list[dict], sinks: list, stall=None) -> list[dict]:
+    """Run one blocking TLS client per spec, overlapping in time.
+
+    spec: {'path': '/c0', 'reader': fast|slow|bursty|stall|hold|abort, 'rcvbuf': int|None, 'seed': int}
+    Clients are started in list order, each once its predecessor has sent its request and seen the first
+    response bytes (or 0.5 s later).  A `hold` client stops reading after 32 KiB until every client
+    that is not holding has finished, then reads the rest; an `abort` client closes its socket after
+    32 KiB (its own download is then incomplete by its own choice) and the remaining clients follow.
+    """
+    import random as _random
+
+    n = len(specs)
+    first = [threading.Event() for _ in range(n)]
+    done = [threading.Event() for _ in range(n)]
+    results: list[dict] = [{} for _ in range(n)]
+
+    def others_done(i):
+        for j, sp in enumerate(specs):
+            if j != i and sp["reader"] not in ("hold",):
+                done[j].wait(40)
+
+    def run(i):
+        sp = specs[i]
+        try:
+            if i > 0:
+                first[i - 1].wait(0.5)
+            ctx = tls_peer.peer_client_ctx(permissive=False)
+            raw = connect_raw(port, sp.get("rcvbuf"), 60)
+            got = 0
+            eof = "clean"
+            try:
+                s = ctx.wrap_socket(raw, server_hostname="localhost", suppress_ragged_eofs=False)
+                s.sendall(f"gemini://localhost{sp['path']}\r\n".encode())
+                rng = _random.Random(sp.get("seed", 0))
+                reads = 0
+                paused = False
+                while True:
+                    mode = sp["reader"]
+                    if mode in ("hold", "abort", "stall") and not paused and got >= 32768:
+                        paused = True
+                        first[i].set()
+                        if mode == "abort":
+                            eof = "aborted-by-client"
+                            break
+                        if mode == "hold":
+                            others_done(i)
+                        else:
+                            time.sleep(0.2)
+                            if stall:
+                                stall()
+                            time.sleep(0.2)
+                    try:
+                        if mode == "slow" and reads < 20000:
+                            b = s.recv(1)
+                        elif mode == "bursty":
+                            b = s.recv(1 if rng.random() < 0.1 else rng.randint(2, 70000))
+                            if rng.random() > 0.95:
+                                time.sleep(rng.random() * 0.01)
+                        else:
+                            b = s.recv(65536)
+                    except ssl.SSLZeroReturnError:
+                        break
+                    except ssl.SSLEOFError:
+                        eof = "ragged"
+                        break
+                    except ConnectionResetError:
+                        eof = "reset"
+                        break
+                    except socket.timeout:
+                        eof = "timeout"
+                        break
+                    except (ssl.SSLError, OSError) as e:
+                        eof = "error:" + tls_peer._errkind(e)
+                        break
+                    if not b:
+                        break
+                    reads += 1
+                    got += len(b)
+                    sinks[i].add(b)
+                    first[i].set()
+            finally:
+                try:
+                    raw.close()
+                except OSError:
+                    pass
+            results[i] = {"eof": eof, "n": got}
+        except Exception as e:  # noqa: BLE001
+            results[i] = {"eof": "error:" + type(e).__name__, "n": 0}
+        finally:
+            first[i].set()
+            done[i].set()
+
+    threads = [threading.Thread(target=run, args=(i,), daemon=True) for i in range(n)]
+    for t in threads:
+        t.start()
+    for t in threads:
+        t.join(90)
+    return results
+
+
+# -- a scripted loopback TLS peer whose offered protocol versions change from step to step (C20) -----
+class VersionPeer:
+    """Listens on 127.0.0.1:<ephemeral>; every accepted connection is served with the CURRENT step's
+    permissive server context (security level 0, versions lo..hi) or reset, and logged:
+    {'step': k, 'hs': 'tls11' | 'none:<err>' | 'reset', 'req': <request bytes received after the handshake>}.
+    The certificate is the same in every step (the TOFU pin keeps matching)."""
+
+    def __init__(self, certfile: str, keyfile: str):
+        self.certfile, self.keyfile = certfile, keyfile
+        self.sock = socket.socket(socket.AF_INET, socket.SOCK_STREAM)
+        self.sock.setsockopt(socket.SOL_SOCKET, socket.SO_REUSEADDR, 1)
+        self.sock.bind(("127.0.0.1", 0))
+        self.sock.listen(16)
+        self.sock.settimeout(0.2)
+        self.port = self.sock.getsockname()[1]
+        self.log: list[dict] = []
+        self.step = -1
+        self.ctx = None
+        self.reset_left = 0
+        self.stop = False
+        self.active = 0
+        self.lock = threading.Lock()
+        self.thread = threading.Thread(target=self._loop, daemon=True)
+        self.thread.start()
+
+    def set_step(self, k: int, lo: int, hi: int, reset_first: bool) -> None:
+        with self.lock:
+            self.step = k
+            self.ctx = tls_peer.peer_server_ctx(self.certfile, self.keyfile, lo, hi, permissive=True)
+            self.reset_left = 1 if reset_first else 0
+
+    def _serve(self, conn: socket.socket) -> None:
+        with self.lock:
+            step, ctx = self.step, self.ctx
+            reset = self.reset_left > 0
+            if reset:
+                self.reset_left -= 1
+        entry = {"step": step, "hs": "none", "req": 0}
+        self.log.append(entry)
+        try:
+            conn.settimeout(3)
+            if reset:
+                try:
+                    conn.recv(4096)   # the ClientHello
+                except OSError:
+                    pass
+                import struct
+
+                conn.setsockopt(socket.SOL_SOCKET, socket.SO_LINGER, struct.pack("ii", 1, 0))
+                entry["hs"] = "reset"
+                conn.close()
+                return
+            try:
+                s = ctx.wrap_socket(conn, server_side=True)
+            except (ssl.SSLError, OSError) as e:
+                entry["hs"] = "none:" + tls_peer._errkind(e)
+                return
+            r = tls_peer.rank_of_name(s.version())
+            entry["hs"] = tls_peer.VERS[r] if r is not None else "?"
+            s.settimeout(0.4)
+            buf = b""
+            try:
+                while b"\r\n" not in buf and len(buf) < 4096:
+                    b = s.recv(4096)
+                    if not b:
+                        break
+                    buf += b
+            except (ssl.SSLError, OSError):
+                pass
+            entry["req"] = len(buf)
+            try:
+                s.sendall(b"20 text/gemini\r\nhello\n")
+                s.unwrap()
+            except (ssl.SSLError, OSError):
+                pass
+        finally:
+            try:
+                conn.close()
+            except OSError:
+                pass
+
+    def _loop(self) -> None:
+        while not self.stop:
+            try:
+                conn, _ = self.sock.accept()
+            except socket.timeout:
+                continue
+            except OSError:
+                break
+            self.active += 1
+            try:
+                self._serve(conn)
+            finally:
+                self.active -= 1
+
+    def settle(self) -> None:
+        """wait until every connection made so far has been served and logged"""
+        for _ in range(3):
+            t0 = time.time()
+            while self.active and time.time() - t0 < 3:
+                time.sleep(0.005)
+            time.sleep(0.02)
+
+    def close(self) -> None:
+        self.stop = True
+        self.thread.join(3)
+        try:
+            self.sock.close()
+        except OSError:
+            pass
